@@ -1457,5 +1457,28 @@ def c18(ctx):
         deep = float(np.sum(model._param_struct.Soil.Profile.dz)) > float(np.sum(np.array(sc["soil"].get("dz") or [0.1] * 12))) + 1e-9
         nontriv += 1
         c18_model_checks(sc, model, viols)
+    # texture-based layers over the pedotransfer function's calibrated range (clay <= 60 %, organic matter <= 8 %)
+    from aquacrop.entities.soil import Soil
+    pseudo = dict(id="texture-lattice")
+    step = 10 if tier == "quick" else 5
+    for sand in range(0, 101, step):
+        for clay in range(0, 61, step):
+            if sand + clay > 100:
+                continue
+            for om in (0.5, 2.5, 5.0, 8.0):
+                # the region on which Properties/C18.lean proves the order (`texture_order_region`, `…_om3`)
+                proved = (clay <= 50 and (om >= 1 or clay >= 3)) or (clay <= 60 and om <= 3 and (om >= 1 or clay >= 3))
+                sfx = "" if proved else "-outside-proved-region"
+                evals += 1
+                try:
+                    wp, fc, ts, ks = Soil("custom").calculate_soil_hydraulic_properties(sand / 100.0, clay / 100.0, om)
+                except Exception as e:  # noqa: BLE001
+                    viols.append(V("C18", "texture-raises" + sfx, pseudo, "a texture inside the calibrated range cannot be turned into a layer",
+                                   sand=sand, clay=clay, om=om, error=(type(e).__name__, str(e)[:120])))
+                    continue
+                if not (0 < wp < fc <= ts):
+                    viols.append(V("C18", "texture-order" + sfx, pseudo, "texture layer violates wilting point < field capacity <= saturation",
+                                   sand=sand, clay=clay, om=om, th_wp=float(wp), th_fc=float(fc), th_s=float(ts)))
+                nontriv += 1
     return viols, dict(evaluations=evals, distinct_nontrivial=nontriv,
                        c18_samples=[dict(scen=s["id"], soil=s["soil"], crop=s["crop"]["name"]) for s in scs[:2]])
